@@ -1,4 +1,6 @@
 import PQ.Model.Writer
+import PQ.Model.Reader
+import PQ.Model.Spec
 /-!
 # Line-protocol text ↔ model values (driver glue; not part of any theorem)
 -/
@@ -106,5 +108,69 @@ def showCalls (calls : List (Option (List Bytes))) : String :=
   ";".intercalate (calls.map fun c => match c with
     | none => "panic"
     | some ws => if ws.isEmpty then "-" else ",".intercalate (ws.map fun w => toString w.length))
+
+/-- decompression graph: `compressed=raw` pairs -/
+def parseDecomp (tab : String) : Decomp :=
+  let pairs : List (Bytes × Bytes) :=
+    if tab = "-" then [] else
+    (tab.splitOn ",").filterMap fun kv =>
+      match kv.splitOn "=" with
+      | [k, v] => some (unhex k, unhex v)
+      | _ => none
+  { snappy := fun b => pairs.lookup b, gzip := fun b => pairs.lookup b }
+
+/-- `Scan` over all columns: the record as `|`-joined projections -/
+def scanAll (cols : List Col) (bufs : List ColBuf) : Option (String × List ColBuf) :=
+  let rec go : List Col → List ColBuf → Option (List String × List ColBuf)
+    | [], _ => some ([], [])
+    | c :: cs, bufs =>
+      match scanCol c showProj (bufs.head?.getD {}) with
+      | none => none
+      | some (t, b) =>
+        match go cs bufs.tail with
+        | none => none
+        | some (ts, bs) => some (t :: ts, b :: bs)
+  match go cols bufs with
+  | none => none
+  | some (ts, bs) => some ("|".intercalate ts, bs)
+
+/-- open, then `Next`/`Scan` until `Next` is false (at most rows+3 times): the line `zoo-read` prints -/
+def readAll (cols : List Col) (dc : Decomp) (file : Bytes) : String :=
+  match openReader cols dc file with
+  | .error .err => "open=err rows=0 nexts=0 err=- recs=-"
+  | .error .panic => "open=panic rows=0 nexts=0 err=- recs=-"
+  | .ok st =>
+    let limit := (st.rows + 3).toNat
+    let rec loop : Nat → RState → Nat → List String → (String × Nat × List String)
+      | 0, st, k, recs => (if st.err then "err" else "ok", k, recs)
+      | fuel+1, st, k, recs =>
+        match st.next with
+        | .error _ => ("panic", k, recs)
+        | .ok (false, st) => (if st.err then "err" else "ok", k, recs)
+        | .ok (true, st) =>
+          if st.err then loop fuel st (k+1) (recs ++ ["-"]) else
+          match scanAll st.cols st.bufs with
+          | none => ("panic", k + 1, recs)
+          | some (t, bufs) => loop fuel { st with bufs := bufs } (k+1) (recs ++ [t])
+    let (status, k, recs) := loop limit st 0 []
+    s!"open=ok rows={st.rows} nexts={k} err={status} recs={if recs.isEmpty then "-" else ";".intercalate recs}"
+
+def transpose (n : Nat) (colsRecs : List (List String)) : List String :=
+  (List.range n).map fun i => "|".intercalate (colsRecs.map fun rs => rs.getD i "?")
+
+/-- the records of one parsed row group, as `|`-joined projections -/
+def showSpecRG (cols : List Col) (rg : SpecRG) : String :=
+  let perCol : List (List String) := (cols.zip rg.chunks).map fun (c, sc) =>
+    (splitRecords (sc.entries.length + 1) sc.entries).map fun es =>
+      match assembleTop c.reps es with
+      | some (v, []) => showProj c.reps v
+      | _ => "?"
+  let recs := transpose rg.numRows perCol
+  if recs.isEmpty then "-" else ";".intercalate recs
+
+def showParse (cols : List Col) (r : V SpecFile) : String :=
+  match r with
+  | .error e => "invalid " ++ e.replace " " "_"
+  | .ok f => s!"ok rows={f.numRows} rgs={if f.rowGroups.isEmpty then "-" else "/".intercalate (f.rowGroups.map (showSpecRG cols))}"
 
 end PQ
